@@ -4,3 +4,4 @@
 #define VH_W 32
 #include "vh_bits.inc"
 void (*const vh_bits_set_32)(const VhLine *) = op_bits_set_32;
+void (*const vh_bits_far_32)(const VhLine *) = op_bits_far_32;
